@@ -1,6 +1,6 @@
 (* C19/ProofsMain.v — the verdict does not depend on the precommit order. *)
 From Coq Require Import List NArith ZArith Bool Lia Permutation.
-From C19 Require Import Model ProofsVoterSet ProofsChain ProofsCommit ProofsIff ProofsJust ProofsOrder.
+From C19 Require Import Model ProofsVoterSet ProofsChain ProofsCommit ProofsIff ProofsJust ProofsOrder ProofsNoAmb.
 Import ListNotations.
 Local Open Scope N_scope.
 
@@ -33,3 +33,37 @@ Qed.
 (* a voter set made by NewVoterSet is sane in the sense the theorems need *)
 Lemma new_voter_set_sane ws vs : new_voter_set ws = Some vs -> vs_total vs < 2 * vs_threshold vs.
 Proof. intros E. destruct (new_voter_set_some _ _ E) as [_ [_ [B _]]]. lia. Qed.
+
+(* ---------- for voter sets made by NewVoterSet: no side condition on the descent ---------- *)
+Theorem accept_iff_new_voter_set ws vs hs num fhash fnum thash tnum ps :
+  new_voter_set ws = Some vs ->
+  (forall x, In x hs -> num (h_hash x) = num (h_parent x) + 1) ->
+  (forall p, In p ps -> p_num p = num (p_hash p)) ->
+  excess_equivocation vs ps = false ->
+  (verify_finalizes vs hs fhash fnum thash tnum ps = JOk <->
+   justification_valid_spec vs hs fhash fnum thash tnum ps = true).
+Proof.
+  intros E wf Hn Hex.
+  destruct (new_voter_set_some _ _ E) as [_ [_ [B _]]].
+  destruct (validate_commit_total vs hs num thash tnum ps wf B (new_voter_set_bounded _ _ E) Hex) as [r V].
+  exact (verify_finalizes_iff vs hs num fhash fnum thash tnum ps r wf (new_voter_set_sane _ _ E) Hn Hex V).
+Qed.
+
+Theorem order_free_new_voter_set ws vs hs num fhash fnum thash tnum ps ps' :
+  new_voter_set ws = Some vs ->
+  (forall x, In x hs -> num (h_hash x) = num (h_parent x) + 1) ->
+  (forall p, In p ps -> p_num p = num (p_hash p)) ->
+  excess_equivocation vs ps = false ->
+  Permutation ps ps' ->
+  (verify_finalizes vs hs fhash fnum thash tnum ps = JOk <->
+   verify_finalizes vs hs fhash fnum thash tnum ps' = JOk).
+Proof.
+  intros E wf Hn Hex P.
+  assert (Hn' : forall p, In p ps' -> p_num p = num (p_hash p))
+    by (intros p Hp; apply Hn; eapply Permutation_in; [apply Permutation_sym|]; eauto).
+  assert (Hex' : excess_equivocation vs ps' = false) by (now rewrite <- (excess_equivocation_perm vs _ _ P)).
+  rewrite (accept_iff_new_voter_set ws vs hs num fhash fnum thash tnum ps E wf Hn Hex),
+          (accept_iff_new_voter_set ws vs hs num fhash fnum thash tnum ps' E wf Hn' Hex'),
+          (justification_valid_spec_perm vs hs num wf fhash fnum thash tnum ps ps' Hn P).
+  reflexivity.
+Qed.
